@@ -1,9 +1,212 @@
-import Model.Common
-/-! Oracle handlers for C14 (stub until the property's model exists). -/
+import Model.C14
+/-! Oracle handlers for C14: model output (correspondence) and judge (property on impl output). -/
 namespace OracleC14
-open Common
+open Common Ring C14
 
-def handle (_cmd : String) (_f : List String) : String × String × String :=
-  ("unknown-cmd", "-", "-")
+def showRes : Except Err (List Nat) → String
+  | .ok l => "ok:" ++ showNatList l
+  | .error e => "err:" ++ e.name
+
+/-- `ok:<list>` → `some (some list)`, `err:…` → `some none` -/
+def parseRes (s : String) : Option (Option (List Nat)) :=
+  if s.startsWith "ok:" then (natList? (s.drop 3).toString).map some
+  else if s.startsWith "err:" then some none else none
+
+def bitsOf (tr : List Nat) (keys : List Nat) (f : List Nat → Nat → Bool) : String :=
+  if keys.isEmpty then "-" else String.ofList (keys.map fun k => if f tr k then '1' else '0')
+
+/-! ### judge side: written from the property text, independent of the model functions -/
+
+/-- closed `[start,end]` pairs of a flat range list -/
+def pairs : List Nat → List (Nat × Nat)
+  | s :: e :: r => (s, e) :: pairs r
+  | _ => []
+
+def inSomeRange (tr : List Nat) (k : Nat) : Bool := (pairs tr).any fun p => p.1 ≤ k && k ≤ p.2
+
+def ascending : List Nat → Bool
+  | a :: b :: r => a ≤ b && ascending (b :: r)
+  | _ => true
+
+def wellFormed (tr : List Nat) : Bool := tr.length % 2 == 0 && ascending tr && tr.all (· ≤ 4294967295)
+
+def insertPair (x : Nat × Nat) : List (Nat × Nat) → List (Nat × Nat)
+  | [] => [x]
+  | y :: ys => if x.1 ≤ y.1 then x :: y :: ys else y :: insertPair x ys
+
+/-- do the closed intervals tile `[0, 2^32-1]` exactly (no gap, no overlap)? returns reason keys -/
+def tiling (ivs : List (Nat × Nat)) : List String :=
+  let s := ivs.foldr insertPair []
+  let rec go (next : Nat) : List (Nat × Nat) → List String
+    | [] => if next == 4294967296 then [] else ["tile-gap"]
+    | (a, b) :: r =>
+      if b < a then ["tile-empty-interval"]
+      else if a < next then ["tile-overlap"]
+      else if a > next then ["tile-gap"]
+      else go (b + 1) r
+  go 0 s
+
+def charAt (s : String) (i : Nat) : Char := (s.toList[i]?).getD '?'
+
+/-- exactness on the boundary keys: bit ⇔ owner = who -/
+def exactness (bits : String) (owners : List String) (who : String) : List String := Id.run do
+  let bl := bits.toList
+  let mut bad : List String := []
+  if bl.length != owners.length then return ["obs-length-mismatch"]
+  for (b, o) in bl.zip owners do
+    if b == '1' && o != who then
+      if !bad.contains "range-without-ownership" then bad := "range-without-ownership" :: bad
+    if b == '0' && o == who then
+      if !bad.contains "ownership-without-range" then bad := "ownership-without-range" :: bad
+  return bad
+
+def intervalConsistency (tr : List Nat) (keys : List Nat) (bits : String) : List String :=
+  let bl := bits.toList
+  if bl.length != keys.length then ["obs-length-mismatch"]
+  else if (keys.zip bl).all fun (k, b) => (b == '1') == inSomeRange tr k then [] else ["includes-not-interval"]
+
+def bucket (n : Nat) : String :=
+  if n ≤ 3 then toString n else if n ≤ 8 then "4-8" else if n ≤ 64 then "9-64" else "65+"
+
+def joinReasons (l : List String) : String := if l.isEmpty then "-" else ",".intercalate l.eraseDups
+
+/-- which walk the running code has: `false` = the `rangeEnd == 0` sentinel (code as pinned),
+`true` = the suggested fix with an explicit flag. Flip when the fix is committed. -/
+def codeHasFix : Bool := false
+def rangesForInstanceCode := if codeHasFix then rangesForInstanceF else rangesForInstance
+
+def handleInst (f : List String) : String × String × String :=
+  match f with
+  | [ds, cfg, ks, ranges, bits, owners] =>
+    match parseDesc ds, cfg.splitOn ",", natList? ks, parseRes ranges with
+    | some d, [za, rf, op, id], some keys, some impl =>
+      let rfN := rf.toNat?.getD 0
+      let m := rangesForInstanceCode d (za == "1") rfN id
+      let zone := ((d.get? id).map (·.zone)).getD ""
+      let mBits := match m with | .ok tr => bitsOf tr keys includesKey | .error _ => "-"
+      let all := tokenInsts d
+      let mOwners := match m with
+        | .ok _ => if keys.isEmpty then "-" else ",".intercalate (keys.map fun k => (lookupInZoneOf all zone k).getD "~")
+        | .error _ => "-"
+      let model := [showRes m, mBits, mOwners]
+      let diff := if model == [ranges, bits, owners] then "-" else "model=" ++ " ".intercalate model
+      let zt := zoneTokens d zone
+      let judge := match impl with
+        | none => []
+        | some tr =>
+          (if wellFormed tr then [] else ["ranges-malformed"]) ++
+          (if keys.isEmpty then [] else intervalConsistency tr keys bits ++ exactness bits (owners.splitOn ",") id)
+      -- classify the one known failure class (for known_findings matching only): the single uncovered key is 0,
+      -- the zone holds token 0 and the instance owns token 1
+      let failing := ((keys.zip bits.toList).zip (owners.splitOn ",")).filter fun ((_, b), o) => (b == '1') != (o == id)
+      let judge := if judge == ["ownership-without-range"] && failing.map (·.1.1) == [0]
+          && zt.any (·.1 == 0) && zt.any (fun p => p.1 == 1 && p.2.id == id)
+        then ["ownership-without-range:key0-own1-zone0"] else judge
+      let mine := (zt.filter (·.2.id == id)).length
+      let first := zt.head?
+      let tags := s!"inst res={if ranges.startsWith "ok" then "ok" else ranges} op={op} zones={(zonesOf d).length} zt={bucket zt.length} mine={bucket mine} t0={(first.map (·.1 == 0)).getD false} ownFirst={(first.map (·.2.id == id)).getD false} own1={zt.any fun p => p.1 == 1 && p.2.id == id}"
+      (diff, joinReasons judge, tags)
+    | _, _, _, _ => ("bad-input", "-", "-")
+  | _ => ("bad-fields", "-", "-")
+
+def parseAssoc (s : String) : Option (List (String × Option (List Nat))) :=
+  if s == "-" then some [] else
+  (s.splitOn ";").mapM fun kv => match kv.splitOn "=" with
+    | [k, v] => (parseRes v).map fun r => (k, r)
+    | _ => none
+
+def handleTile (f : List String) : String × String × String :=
+  match f with
+  | [ds, cfg, _, obs] =>
+    match parseDesc ds, cfg.splitOn ",", parseAssoc obs with
+    | some d, [za, rf], some impl =>
+      let rfN := rf.toNat?.getD 0
+      let model := ";".intercalate (d.map fun i => i.id ++ "=" ++ showRes (rangesForInstanceCode d (za == "1") rfN i.id))
+      let diff := if model == obs then "-" else "model=" ++ model
+      -- judge: per zone, if every instance of the zone reported ranges, they tile the key space
+      let judge := (zonesOf d).flatMap fun z =>
+        let members := (d.filter (·.zone == z)).map (·.id)
+        let rs := members.map fun id => (impl.find? (·.1 == id)).bind (·.2)
+        if rs.all Option.isSome then
+          let ivs := rs.flatMap fun r => pairs (r.getD [])
+          let t := tiling ivs
+          let zt := zoneTokens d z
+          if t == ["tile-gap"] && tiling ((0, 0) :: ivs) == [] && zt.any (·.1 == 0) && zt.any (·.1 == 1)
+          then ["tile-gap:key0-own1-zone0"] else t
+        else []
+      let ok := impl.all (·.2.isSome)
+      let tags := s!"tile res={if ok then "ok" else "err"} zones={(zonesOf d).length} inst={bucket d.length}"
+      (diff, joinReasons judge, tags)
+    | _, _, _ => ("bad-input", "-", "-")
+  | _ => ("bad-fields", "-", "-")
+
+def showOwner (r : Except Err Int) : String := match r with | .ok p => toString p | .error _ => "!"
+
+def handlePart (f : List String) : String × String × String :=
+  match f with
+  | [ds, pid, ks, rFull, bFull, rAct, bAct, owners] =>
+    match parsePDesc ds, pid.toInt?, natList? ks, parseRes rFull, parseRes rAct with
+    | some d, some p, some keys, some implF, some implA =>
+      let mF := rangesForPartition d p
+      let mA := rangesForPartition d.activeOnly p
+      let bitsM := fun (m : Except Err (List Nat)) => match m with | .ok tr => bitsOf tr keys includesKey | .error _ => "-"
+      let all := d.tokenParts
+      let mOwners := ",".intercalate (keys.map fun k => showOwner (activeForOf all k))
+      let model := [showRes mF, bitsM mF, showRes mA, bitsM mA, mOwners]
+      let diff := if model == [rFull, bFull, rAct, bAct, owners] then "-" else "model=" ++ " ".intercalate model
+      let allActive := d.parts.all (·.state == 2)
+      let isActive := ((d.parts.find? (·.id == p)).map (·.state == 2)).getD false
+      let os := owners.splitOn ","
+      let jF := match implF with
+        | none => []
+        | some tr => (if wellFormed tr then [] else ["ranges-malformed"]) ++ intervalConsistency tr keys bFull ++
+            (if allActive then exactness bFull os pid else [])
+      let jA := match implA with
+        | none => if isActive then ["active-partition-without-ranges"] else []
+        | some tr => (if wellFormed tr then [] else ["ranges-malformed"]) ++ intervalConsistency tr keys bAct ++
+            exactness bAct os pid
+      let nt := ((d.parts.find? (·.id == p)).map (·.tokens.length)).getD 0
+      let toks := d.ringTokens
+      let tags := s!"part res={if rFull.startsWith "ok" then "ok" else rFull} allActive={allActive} active={isActive} parts={bucket d.parts.length} ring={bucket toks.length} mine={bucket nt} t0={toks.head? == some 0} tmax={toks.getLast? == some 4294967295}"
+      (diff, joinReasons (jF ++ jA), tags)
+    | _, _, _, _, _ => ("bad-input", "-", "-")
+  | _ => ("bad-fields", "-", "-")
+
+def handlePtile (f : List String) : String × String × String :=
+  match f with
+  | [ds, _, _, full, act] =>
+    match parsePDesc ds, parseAssoc full, parseAssoc act with
+    | some d, some implF, some implA =>
+      let mF := ";".intercalate (d.parts.map fun p => toString p.id ++ "=" ++ showRes (rangesForPartition d p.id))
+      let mA := ";".intercalate (d.parts.map fun p => toString p.id ++ "=" ++ showRes (rangesForPartition d.activeOnly p.id))
+      let diff := if [mF, mA] == [full, act] then "-" else "model=" ++ mF ++ " " ++ mA
+      let hasTok := d.parts.any (!·.tokens.isEmpty)
+      let hasActTok := d.parts.any fun p => p.state == 2 && !p.tokens.isEmpty
+      let jF := if hasTok && implF.all (·.2.isSome) then tiling (implF.flatMap fun r => pairs (r.2.getD [])) else []
+      let jA := if hasActTok then tiling (implA.flatMap fun r => pairs (r.2.getD [])) else []
+      let tags := s!"ptile tokens={hasTok} activeTokens={hasActTok} parts={bucket d.parts.length} allActive={d.parts.all (·.state == 2)}"
+      (diff, joinReasons (jF ++ jA), tags)
+    | _, _, _ => ("bad-input", "-", "-")
+  | _ => ("bad-fields", "-", "-")
+
+def handleInc (f : List String) : String × String × String :=
+  match f with
+  | [rs, ks, _, bits] =>
+    match natList? rs, natList? ks with
+    | some tr, some keys =>
+      let m := bitsOf tr keys includesKey
+      let diff := if m == bits then "-" else "model=" ++ m
+      let judge := if tr.length % 2 == 0 then intervalConsistency tr keys bits else []
+      (diff, joinReasons judge, s!"inc len={tr.length} even={tr.length % 2 == 0}")
+    | _, _ => ("bad-input", "-", "-")
+  | _ => ("bad-fields", "-", "-")
+
+def handle (cmd : String) (f : List String) : String × String × String :=
+  if cmd == "C14.inst" then handleInst f
+  else if cmd == "C14.tile" then handleTile f
+  else if cmd == "C14.part" then handlePart f
+  else if cmd == "C14.ptile" then handlePtile f
+  else if cmd == "C14.inc" then handleInc f
+  else ("unknown-cmd", "-", "-")
 
 end OracleC14
